@@ -125,6 +125,10 @@ def render_operand(p, a, asy, names):
             call = "if yes() { %s } else { unreachable!() }" % call
         elif asy and a.op == "Src" and a.id % 8 == 7:
             call = "async move { %s.await }" % call   # an async block as the branch's first future
+    if not a.cap and a.op != "SrcAwait" and getattr(p, "_frag", None) is not None and a.id % 2 == 0:
+        # forwarded as a `$e:expr` fragment of a user macro_rules (reaches the proc macro as a None-delimited group)
+        p._frag.append(call)
+        return "$e%d" % (len(p._frag) - 1)
     if a.cap:
         snaps = "".join(" %s(%d, &%s);" % ("snapo" if p.opt else "snap", sid, names[b]) for sid, b in a.snaps)
         # every third capture is spelled as a labelled block (still a block expression)
@@ -163,10 +167,20 @@ def branch_names(p):
     return {i: "n%d" % i for i, b in enumerate(p.branches) if b["named"]}
 
 
+def frag_mode(p):
+    """Every fifth unnamed program passes half of its non-block operands and its handler to the macro as `$e:expr`
+    fragments of a local macro_rules (a frequent way of wrapping join! in user code): the proc macro then sees
+    None-delimited groups where it otherwise sees the expression's own tokens."""
+    return p.id % 5 == 2 and not any(b["named"] for b in p.branches)
+
+
 def wrap_hygiene(p, kind, body):
     """For hygiene mode: the invocation text uses `$aK` metavariables; wrap it into a local macro_rules.
     For forwarding mode: the whole token list is passed through `__fwd!`."""
     invocation = "%s! { %s }" % (kind, body)
+    if getattr(p, "_frag", None):
+        params = ", ".join("$e%d:expr" % i for i in range(len(p._frag)))
+        return "{ macro_rules! __fe { (%s) => { %s } } __fe!(%s) }" % (params, invocation, ", ".join(p._frag))
     named = [i for i, b in enumerate(p.branches) if b["named"]]
     if not named or p.id % 4 in (0, 1):
         return invocation
@@ -180,6 +194,7 @@ def wrap_hygiene(p, kind, body):
 def render_body(p, kind, hk):
     asy = kind in ASYNC_KINDS
     names = branch_names(p)
+    p._frag = [] if frag_mode(p) else None
     parts = []
     for bi, b in enumerate(p.branches):
         s = ""
@@ -204,6 +219,9 @@ def render_body(p, kind, hk):
         if p.handler_block:
             # a handler may be any expression, also one spelled as a block
             h = "{ %s }" % h
+        if p._frag is not None:
+            p._frag.append(h)
+            h = "$e%d" % (len(p._frag) - 1)
         h = "%s => %s" % (hk, h)
         parts.insert(pos, h)
     opts = ""
@@ -257,6 +275,8 @@ def render_prog(p, want_async=True, skip=()):
         brs.append("Branch { named: %s, steps: &[%s] }" % ("true" if b["named"] else "false", steps))
     hnd = "None" if not p.handler else "Some(Hnd { id: %d, pos: %d })" % p.handler
     text = render_body(p, "join", hk_for(p, "join"))
+    for i in reversed(range(len(p._frag or []))):
+        text = text.replace("$e%d" % i, "$e%d:expr=(%s)" % (i, p._frag[i]))
     lines.append("    pub static PROG: Prog = Prog { id: %d, branches: &[%s], handler: %s, joiner: Joiner::%s, opt: %s, max_id: %d, tags: %s, text: %s };" % (
         p.id, ", ".join(brs), hnd, p.joiner, "true" if p.opt else "false", p.next_id, rust_str(",".join(p.tags)), rust_str(text)))
     cases = []
